@@ -3,7 +3,7 @@
 //! decoder can be driven without an encoder dependency.
 
 use font_test_data::ift::{CFF2_FONT, CFF2_FONT_CHARSTRINGS_OFFSET, CFF_FONT, CFF_FONT_CHARSTRINGS_OFFSET};
-use read_fonts::{FontRef, TableProvider};
+use read_fonts::FontRef;
 use write_fonts::FontBuilder;
 
 pub type Tag4 = [u8; 4];
